@@ -372,6 +372,151 @@ def closeBalance (c : Ctx) : Res Out := do
   let (b', x') ← Bank.closeBalanceOp b (toBal s) c.now
   .ok { slots := writeSlot c c.a.slots i x', books := b', tokens := 0, window := c.g.window }
 
+/-! ### `lending_account_liquidate` (classic liquidation), the whole instruction
+
+account checks (regenerated table) → amount > 0 → two different banks → bank-tag compatibility → both banks live →
+asset-tag compatibility of both accounts → both accruals → the liquidatee's array sorted → pre-condition of the engine on the
+liquidatee's portfolio (accrued books) → collateral price (real-time, low) and debt price (real-time, high), both positive →
+the accounting block (`Ix.liquidate`: 97.5 % / 95 %, four balance moves, over-liquidation guard, insurance split) on the slots
+found / created in both arrays → post-condition on the liquidatee's portfolio as left → the liquidator's array sorted and
+checked at the initial requirement. -/
+
+structure LiqCtx where
+  now : Int
+  g : GroupV
+  lq : AcctV               -- liquidator
+  le : AcctV               -- liquidatee
+  signer : Nat
+  ab : BankV               -- collateral bank
+  lb : BankV               -- debt bank
+  risk : List RiskB
+  deriving Repr
+
+def LiqCtx.env (c : LiqCtx) : Env := fun f =>
+  if f = .f_group then some (.group c.g.key c.g.admin c.g.paused)
+  else if f = .f_liquidator_marginfi_account then some (.acct c.lq.key c.lq.group c.lq.authority c.lq.flags)
+  else if f = .f_liquidatee_marginfi_account then some (.acct c.le.key c.le.group c.le.authority c.le.flags)
+  else if f = .f_authority then some (.other c.signer)
+  else if f = .f_asset_bank then some (.bank c.ab.key c.ab.group c.ab.liquidityVault c.ab.books.assetTag c.ab.books.flags c.ab.weightInitZero)
+  else if f = .f_liab_bank then some (.bank c.lb.key c.lb.group c.lb.liquidityVault c.lb.books.assetTag c.lb.books.flags c.lb.weightInitZero)
+  else none
+
+structure LiqOutW where
+  lqSlots : List Account.Slot
+  leSlots : List Account.Slot
+  assetBooks : Bank.Bank
+  liabBooks : Bank.Bank
+  insuranceTokens : Int
+  deriving Repr
+
+/-- `validate_bank_asset_tags` -/
+def bankTagsCompatible (a b : Int) : Bool :=
+  !((Account.isDefaultLike a && b == ASSET_TAG_STAKED) || (a == ASSET_TAG_STAKED && Account.isDefaultLike b))
+
+def stateOf (opState : Int) (k : Gate.Kind) : Res Unit :=
+  match Gate.OpState.ofInt opState with
+  | none => .error .panic
+  | some s => match Gate.validateBankState s k with
+    | none => .ok ()
+    | some e => .error (.err e)
+
+/-- the engine's view of a slot array, two banks seen with the given books -/
+def portfolio2 (risk : List RiskB) (slots : List Account.Slot) (k1 : Nat) (b1 : Bank.Bank) (k2 : Nat) (b2 : Bank.Bank) : Res (List Risk.Pos) :=
+  (slots.filter (·.active)).mapM fun s =>
+    match risk.find? (·.key == s.bank) with
+    | none => .error (.err E.InvalidBankAccount)
+    | some rb =>
+      let r := if s.bank == k1 then { rb.r with asv := b1.asv, lsv := b1.lsv, sa := b1.sa }
+               else if s.bank == k2 then { rb.r with asv := b2.asv, lsv := b2.lsv, sa := b2.sa } else rb.r
+      .ok { bank := r, a := s.a, l := s.l, feed := rb.feed }
+
+def posOf (ps : List Risk.Pos) (slots : List Account.Slot) (key : Nat) : Option Risk.Pos :=
+  match (slots.filter (·.active)).findIdx? (·.bank == key) with
+  | some i => ps[i]?
+  | none => none
+
+def feedPrice (risk : List RiskB) (key : Nat) (bias : Risk.Bias) : Res Int :=
+  match risk.find? (·.key == key) with
+  | none => .error (.err E.InvalidBankAccount)
+  | some rb => Risk.priceOfType rb.feed .realTime (some bias) rb.r.maxConf
+
+def optBal (slots : List Account.Slot) (key : Nat) : Option Bank.Balance :=
+  match Account.findIdx slots key with
+  | some i => (slots[i]?).map toBal
+  | none => none
+
+/-- the amounts block as the handler evaluates it: the insurance fee is only converted to whole tokens AFTER the first three
+    balance moves (`Risk.liquidationAmounts` performs the same computation with the conversion up front) -/
+def liqAmountsLate (assetAmount assetPrice liabPrice decA decL : Int) : Res (Int × Int × Int) := do
+  let amt := Fx.ofInt assetAmount
+  let fees ← Risk.addP LIQUIDATION_INSURANCE_FEE LIQUIDATION_LIQUIDATOR_FEE
+  let finalDiscount ← Risk.subP ONE fees
+  let liqDiscount ← Risk.subP ONE LIQUIDATION_LIQUIDATOR_FEE
+  let v1 ← Risk.calcValue amt assetPrice decA (some liqDiscount)
+  let liquidator ← Risk.calcAmount v1 liabPrice decL
+  let v2 ← Risk.calcValue amt assetPrice decA (some finalDiscount)
+  let final ← Risk.calcAmount v2 liabPrice decL
+  let fee ← Risk.subP liquidator final
+  if fee < 0 then .error .panic else .ok (liquidator, final, fee)
+
+def liquidate (c : LiqCtx) (assetAmount : Int) : Res LiqOutW := do
+  runChecks c.env (checks .LendingAccountLiquidate)
+  Bank.chk (decide (assetAmount > 0)) E.ZeroLiquidationAmount
+  Bank.chk (c.ab.key != c.lb.key) E.SameAssetAndLiabilityBanks
+  Bank.chk (bankTagsCompatible c.ab.books.assetTag c.lb.books.assetTag) E.AssetTagMismatch
+  stateOf c.ab.opState .failsInPausedState
+  stateOf c.lb.opState .failsInPausedState
+  Account.validateAssetTags c.le.slots c.lb.books.assetTag
+  Account.validateAssetTags c.lq.slots c.lb.books.assetTag
+  Account.validateAssetTags c.lq.slots c.ab.books.assetTag
+  let a ← Bank.accrueInterest c.ab.books c.ab.ir c.now
+  let l ← Bank.accrueInterest c.lb.books c.lb.ir c.now
+  let leSorted := Account.sortBalances c.le.slots
+  -- pre-condition on the liquidatee (both banks as accrued); the engine refuses accounts inside a flash loan
+  Bank.chk (!hasFlag c.le.flags ACCOUNT_IN_FLASHLOAN) E.AccountInFlashloan
+  let ps ← portfolio2 c.risk leSorted c.ab.key a c.lb.key l
+  let pre ← Risk.preLiquidationFor ps (posOf ps leSorted c.lb.key)
+  let ap ← feedPrice c.risk c.ab.key .low
+  Bank.chk (decide (ap > 0)) E.ZeroAssetPrice
+  let lp ← feedPrice c.risk c.lb.key .high
+  Bank.chk (decide (lp > 0)) E.ZeroLiabilityPrice
+  let (aLiquidator, aFinal, aFee) ← liqAmountsLate assetAmount ap lp (Bank.balanceDecimals a) (Bank.balanceDecimals l)
+  -- liquidator takes the debt on its books (slot found or created)
+  let (lq1, i1) ← Account.findOrCreate c.lq.slots c.lb.key l.assetTag c.now
+  let x1 ← balAt lq1 i1
+  let r1 ← Bank.decreaseBalance l x1 c.now aLiquidator .bypassBorrowLimit
+  let lq1 := lq1.set i1 (ofBal c.lb.key r1.2)
+  -- liquidatee gives up the collateral
+  let i2 ← (match Account.findIdx leSorted c.ab.key with | some i => .ok i | none => .error (.err E.BankAccountNotFound) : Res Nat)
+  let x2 ← balAt leSorted i2
+  let preA ← Bank.assetAmount a x2.a
+  Bank.chk (decide (preA ≥ Fx.ofInt assetAmount)) E.OverliquidationAttempt
+  let r2 ← Bank.decreaseBalance a x2 c.now (Fx.ofInt assetAmount) .bypassBorrowLimit
+  let le2 := leSorted.set i2 (ofBal c.ab.key r2.2)
+  -- liquidator receives it
+  let (lq3, i3) ← Account.findOrCreate lq1 c.ab.key r2.1.assetTag c.now
+  let x3 ← balAt lq3 i3
+  let r3 ← Bank.increaseBalance r2.1 x3 c.now (Fx.ofInt assetAmount) .bypassDepositLimit
+  let lq3 := lq3.set i3 (ofBal c.ab.key r3.2)
+  let feeWhole ← (match Fx.toU64? aFee with | some w => .ok w | none => .error (.err E.MathError) : Res Int)
+  -- liquidatee's debt is repaid by the discounted amount
+  let i4 ← (match Account.findIdx le2 c.lb.key with | some i => .ok i | none => .error (.err E.BankAccountNotFound) : Res Nat)
+  let x4 ← balAt le2 i4
+  let r4 ← Bank.increaseBalance r1.1 x4 c.now aFinal .repayOnly
+  let le4 := le2.set i4 (ofBal c.lb.key r4.2)
+  let f ← Bank.math (Fx.add? r4.1.feeI (Fx.frac aFee))
+  let liabBooks := { r4.1 with feeI := f }
+  -- post-condition on the liquidatee as left
+  let ps' ← portfolio2 c.risk le4 c.ab.key r3.1 c.lb.key liabBooks
+  let lp' ← (match posOf ps' le4 c.lb.key with | some p => .ok p | none => .error (.err E.LendingAccountBalanceNotFound) : Res Risk.Pos)
+  let _ ← Risk.postLiquidation ps' lp' pre
+  -- the liquidator stays initially healthy
+  let lqSorted := Account.sortBalances lq3
+  let _ ← (if hasFlag c.lq.flags ACCOUNT_IN_FLASHLOAN then .ok () else do
+      let qs ← portfolio2 c.risk lqSorted c.ab.key r3.1 c.lb.key liabBooks
+      Risk.checkInitHealth qs : Res Unit)
+  .ok { lqSlots := lqSorted, leSlots := le4, assetBooks := r3.1, liabBooks, insuranceTokens := feeWhole }
+
 /-! ### `lending_pool_handle_bankruptcy`, the whole instruction
 
 account checks (regenerated table) → bank state → who may settle (anyone if the bank opted in, else group admin / risk admin)
